@@ -1,22 +1,37 @@
 SPEC = dict(
     id="C18",
     props_file="Props/C18.v",
-    harness=[dict(pkg="share/shwap", test="TestVerifC18", timeout=600, timeout_thorough=2400)],
+    harness=[dict(pkg="share/shwap", test="TestVerifC18", timeout=600, timeout_thorough=2400),
+             dict(pkg="share/shwap", test="TestVerifC18Containers", timeout=600, timeout_thorough=2400)],
     allowed_axioms=[],
     level_text=("Machine-checked theorems (Coq) over an executable model of every shwap identifier codec: round trip for all heights, indices and "
                 "square sizes up to the protocol maximum, position-inside-square, wrong-length rejection, canonical decoding, encoder injectivity "
-                "(no silent truncation). The model is re-validated against the real constructors/decoders on ~16k boundary and random cases per run; "
-                "containers are covered by an implementation round-trip oracle only (partial: their protobuf/JSON byte format is not modelled)."),
+                "(no silent truncation). The model is re-validated against the real constructors/decoders on ~16k boundary and random cases per run. "
+                "Containers (Sample, Row, RowNamespaceData, NamespaceData, RangeNamespaceData): byte-level executable model of the protobuf form "
+                "(gogo-proto varints, tags, wire types, unknown-field/group skipping, merge rules, ToProto/FromProto incl. nil/empty rules) and of the "
+                "length-delimited stream form (serde framing, 1 MiB limit, EOF rules, row-sequence framing of namespace/range data) with theorems: "
+                "round trip up to the normalisation the Go code itself performs (stated exactly), decoder totality, decoded values well formed "
+                "(512-byte shares, no empty range row), wrong wire type refused, truncated frames refused, encoder injectivity; re-validated "
+                "byte-for-byte against the real Marshal/WriteTo and Unmarshal+FromProto/ReadFrom on ~2k encoder/decoder cases per run. "
+                "Partial: the JSON form of containers is covered by the implementation round-trip oracle only."),
     rule=("constructor cases: every id kind x heights {0,1,2^16,2^32-1,2^63,2^64-1,..} x square sizes {0,1,..,2*MaxSquareSize} x "
           "index boundary values (negative, 0, size-1, size, 2^16-1, 2^16, 2^32-1, 2^32) + random valid ids up to the protocol maximum; "
           "decoder cases: honest encodings, each field at its extremes, wrong lengths, all namespace classes, random bytes. "
           "A case is non-trivial when the implementation accepted the input or rejected a right-length input / a constructor call; "
-          "distinct = distinct Coq case term. Containers (sample,row,row-namespace-data,range) from real squares are round-tripped "
-          "through protobuf, stream and JSON by the implementation oracle (L3) only."),
+          "distinct = distinct Coq case term. Containers: encoder cases = synthetic values of every kind (shares of 512 equal bytes; proofs with 0-3 nodes, "
+          "with/without leaf hash, Start/End incl. negative and 2^62-scale values, nil proofs; sides/axes inside and outside their enums; 0-4 rows) "
+          "and values built by the real constructors from a real square, each through protobuf and stream form, model bytes == real bytes; "
+          "decoder cases = those encodings, hand-assembled adversarial messages (unknown fields of every wire type, nested groups, duplicated "
+          "fields, wrong wire types, over-long/10-byte varints, field-number wrap, share lengths != 512, empty range rows, negative/oversized "
+          "lengths), frame corner cases, truncations/bit flips/insertions at structural offsets, random bytes; observed class value|error|panic "
+          "and the decoded value must equal the model's. Non-trivial = encoder case, accepted input, or rejected structured input. "
+          "JSON forms of containers from real squares are round-tripped by the implementation oracle (L3) only."),
     trusted_base=[
         "model Shwap/Ids.v hand-written after share/shwap/*_id.go; tied by the correspondence harness harness/share/shwap/zz_verif_c18_test.go (real constructors, MarshalBinary, XxxFromBinary, ReadFrom) whose observations are re-computed by the model inside Coq (vm_compute) on every run",
         "go-square Namespace validation (29 bytes, version 0/255, 18-zero prefix, parity/tail-padding exclusion) is modelled, not verified; under the same correspondence",
-        "container codecs (protobuf/JSON of Sample, Row, RowNamespaceData, RangeNamespaceData) are NOT in the Coq model: covered by the implementation round-trip oracle only",
+        "container codecs: models Base/Varint.v, Shwap/Wire.v, Shwap/Containers.v hand-written after share/shwap/{sample,row,row_namespace_data,namespace_data,range_namespace_data,share}.go, the generated share/shwap/pb/shwap.pb.go and nmt/pb/proof.pb.go (gogo-proto), nmt.ProtoToProof and go-libp2p-messenger/serde; tied byte-for-byte by harness/share/shwap/zz_verif_c18_containers_test.go (real ToProto+Marshal / WriteTo output compared with the model's bytes; real Unmarshal+XxxFromProto / ReadFrom verdict and decoded value compared with the model's) on every run",
+        "container model identifies Go nil and empty slices (no modelled code distinguishes them observably); RangeNamespaceData.ReadFrom is modelled for a fresh (zero-value) receiver only (reuse of a receiver is C06's concern); Unmarshal is modelled as tokenise-then-interpret, equivalent for the value|error verdict; encodings are assumed shorter than 2^63 bytes (hypothesis `small`)",
+        "JSON form of containers (Sample/Row MarshalJSON/UnmarshalJSON) is NOT in the Coq model: covered by the implementation round-trip oracle only; libshare.NewShare is modelled as the 512-byte length check it performs",
         "Go int is modelled as unbounded Z: harness keeps every integer argument within int64 and every size <= 2^31",
     ],
 )
